@@ -16,7 +16,7 @@ import (
 type Memcached struct {
 	W     *World
 	Data  map[string][]byte
-	Plan  func(cmd, key string) string // "", "error", "timeout", "garbage", "refuse"
+	Plan  func(cmd, key string) string // "", "error", "timeout", "garbage", "refuse", "stale" (answers with another key's value)
 	Stats map[string]int
 }
 
@@ -82,6 +82,20 @@ func (m *Memcached) serve(c net.Conn) {
 			}
 			m.W.mu.Lock()
 			v, ok := m.Data[key]
+			if fault == "stale" {
+				// a poisoned or mixed-up entry: a genuine value, stored under
+				// another key (memcached is unauthenticated and shared)
+				other := ""
+				for k := range m.Data {
+					if k != key && (other == "" || k < other) {
+						other = k
+					}
+				}
+				if other != "" {
+					v, ok = m.Data[other], true
+					m.Stats["get-stale"]++
+				}
+			}
 			m.W.mu.Unlock()
 			if ok {
 				m.count("hit")
